@@ -61,11 +61,14 @@ type VerifSGConn struct {
 	trace  *verifSGTrace
 	client bool
 	pn     protocol.PacketNumber
+
+	streams []verifSGStream
 }
 
 // VerifSGFrame describes one frame of a packet payload.
 // Kind: 0 STREAM (1 byte of data at offset 0), 1 RESET_STREAM, 2 STREAM_DATA_BLOCKED,
-// 3 STOP_SENDING, 4 MAX_STREAM_DATA, 5 PING, 6 MAX_STREAMS (ID = count, Uni = type).
+// 3 STOP_SENDING, 4 MAX_STREAM_DATA, 5 PING, 6 MAX_STREAMS (ID = count, Uni = type),
+// 7 STREAM with FIN (1 byte at offset 0; RESET_STREAM has final size 1, so the two agree).
 type VerifSGFrame struct {
 	Kind int
 	ID   int64
@@ -127,7 +130,9 @@ func verifSGWire(f VerifSGFrame) wire.Frame {
 	case 0:
 		return &wire.StreamFrame{StreamID: id, Data: []byte("x"), DataLenPresent: true}
 	case 1:
-		return &wire.ResetStreamFrame{StreamID: id, ErrorCode: 1, FinalSize: 0}
+		return &wire.ResetStreamFrame{StreamID: id, ErrorCode: 1, FinalSize: 1}
+	case 7:
+		return &wire.StreamFrame{StreamID: id, Data: []byte("x"), DataLenPresent: true, Fin: true}
 	case 2:
 		return &wire.StreamDataBlockedFrame{StreamID: id, MaximumStreamData: 1}
 	case 3:
@@ -214,4 +219,201 @@ func (v *VerifSGConn) In(uni bool) (int64, int64, int64, int64) {
 func (v *VerifSGConn) Shutdown() {
 	defer func() { _ = recover() }()
 	v.c.streamsMap.CloseWithError(errVerifSMClosed)
+}
+
+// ---- round 4: the application's side and stream completion through the connection ----
+
+type verifSGStream struct {
+	id   int64
+	recv *ReceiveStream // nil for our own unidirectional streams
+	send *SendStream    // nil for the peer's unidirectional streams
+}
+
+func (v *VerifSGConn) keep(s verifSGStream) int {
+	v.streams = append(v.streams, s)
+	return len(v.streams) - 1
+}
+
+func verifSGCancelledCtx() context.Context {
+	ctx, cancel := context.WithCancel(context.Background())
+	cancel()
+	return ctx
+}
+
+// Accept calls Conn.AcceptStream / AcceptUniStream with an already cancelled context: it returns
+// the next stream if one is ready and never blocks. handle < 0: no stream (class = error class,
+// 6 = the context's error).
+func (v *VerifSGConn) Accept(uni bool) (handle int, id int64, class int) {
+	if uni {
+		s, err := v.c.AcceptUniStream(verifSGCancelledCtx())
+		if err != nil {
+			return -1, -1, verifSMErrClass(err)
+		}
+		return v.keep(verifSGStream{id: int64(s.StreamID()), recv: s}), int64(s.StreamID()), 0
+	}
+	s, err := v.c.AcceptStream(verifSGCancelledCtx())
+	if err != nil {
+		return -1, -1, verifSMErrClass(err)
+	}
+	return v.keep(verifSGStream{id: int64(s.StreamID()), recv: s.receiveStr, send: s.sendStr}), int64(s.StreamID()), 0
+}
+
+// Open calls Conn.OpenStream / OpenUniStream.
+func (v *VerifSGConn) Open(uni bool) (handle int, id int64, class int) {
+	if uni {
+		s, err := v.c.OpenUniStream()
+		if err != nil {
+			return -1, -1, verifSMErrClass(err)
+		}
+		return v.keep(verifSGStream{id: int64(s.StreamID()), send: s}), int64(s.StreamID()), 0
+	}
+	s, err := v.c.OpenStream()
+	if err != nil {
+		return -1, -1, verifSMErrClass(err)
+	}
+	return v.keep(verifSGStream{id: int64(s.StreamID()), recv: s.receiveStr, send: s.sendStr}), int64(s.StreamID()), 0
+}
+
+// Abandon is what an application does when it is done with a stream: CancelRead on the receive
+// half, CancelWrite on the send half; then everything the connection wants to send is taken out
+// of the framer (as the packer does) and acknowledged, so that the RESET_STREAM is acked.
+func (v *VerifSGConn) Abandon(handle int) []VerifSMFrame {
+	s := v.streams[handle]
+	if s.recv != nil {
+		s.recv.CancelRead(3)
+	}
+	if s.send != nil {
+		s.send.CancelWrite(4)
+	}
+	return v.FlushAck()
+}
+
+// FlushAck empties the framer the way the packet packer does and acknowledges every frame.
+// Returns the MAX_STREAMS and STREAMS_BLOCKED frames among them, in order.
+func (v *VerifSGConn) FlushAck() (out []VerifSMFrame) {
+	for round := 0; round < 20; round++ {
+		// MAX_STREAMS / STREAMS_BLOCKED in the order they were queued (the framer packs its
+		// control frames last-in-first-out, which is irrelevant for the property)
+		v.c.framer.controlFrameMutex.Lock()
+		for _, f := range v.c.framer.controlFrames {
+			switch g := f.(type) {
+			case *wire.MaxStreamsFrame:
+				out = append(out, VerifSMFrame{Uni: g.Type == protocol.StreamTypeUni, Num: int64(g.MaxStreamNum)})
+			case *wire.StreamsBlockedFrame:
+				out = append(out, VerifSMFrame{Blocked: true, Uni: g.Type == protocol.StreamTypeUni, Num: int64(g.StreamLimit)})
+			}
+		}
+		v.c.framer.controlFrameMutex.Unlock()
+		frames, sframes, _ := v.c.framer.Append(nil, nil, 1200, monotime.Now(), protocol.Version1)
+		if len(frames) == 0 && len(sframes) == 0 {
+			break
+		}
+		for _, f := range frames {
+			if f.Handler != nil {
+				f.Handler.OnAcked(f.Frame)
+			}
+		}
+		for _, f := range sframes {
+			if f.Handler != nil {
+				f.Handler.OnAcked(f.Frame)
+			}
+		}
+	}
+	return out
+}
+
+func verifSGParams(nb, nu int64, rsa bool) *wire.TransportParameters {
+	return &wire.TransportParameters{
+		InitialMaxStreamDataBidiLocal: 1 << 20, InitialMaxStreamDataBidiRemote: 1 << 20,
+		InitialMaxStreamDataUni: 1 << 20, InitialMaxData: 1 << 20,
+		MaxBidiStreamNum: protocol.StreamNum(nb), MaxUniStreamNum: protocol.StreamNum(nu),
+		ActiveConnectionIDLimit: 2, MaxAckDelay: protocol.DefaultMaxAckDelay, AckDelayExponent: protocol.DefaultAckDelayExponent,
+		MaxUDPPayloadSize: protocol.MaxByteCount, EnableResetStreamAt: rsa,
+	}
+}
+
+// Restore is Conn.restoreTransportParameters (client, 0-RTT): the remembered parameters.
+func (v *VerifSGConn) Restore(nb, nu int64, rsa bool) {
+	v.c.restoreTransportParameters(verifSGParams(nb, nu, rsa))
+}
+
+// Apply stores the peer's parameters and calls Conn.applyTransportParameters, as the run loop
+// does when they arrive (server) / when the handshake completes (client).
+func (v *VerifSGConn) Apply(nb, nu int64, rsa bool) {
+	v.c.peerParams = verifSGParams(nb, nu, rsa)
+	v.c.applyTransportParameters()
+}
+
+// Reject0RTT is what the client does when the server rejects 0-RTT: dropEncryptionLevel(0-RTT).
+func (v *VerifSGConn) Reject0RTT() (class int, msg string) {
+	defer func() {
+		if r := recover(); r != nil {
+			class, msg = 7, fmt.Sprintf("panic: %v", r)
+		}
+	}()
+	if err := v.c.dropEncryptionLevel(protocol.Encryption0RTT, monotime.Now()); err != nil {
+		return 7, err.Error()
+	}
+	return 0, ""
+}
+
+// UseReset is the effect of Conn.NextConnection once the handshake completed.
+func (v *VerifSGConn) UseReset() { v.c.streamsMap.UseResetMaps() }
+
+// InFull: the incoming map's fields incl. the streams with their shouldDelete flag.
+func (v *VerifSGConn) InFull(uni bool) VerifSMIn {
+	if uni {
+		return verifSnapIn(v.c.streamsMap.incomingUniStreams)
+	}
+	return verifSnapIn(v.c.streamsMap.incomingBidiStreams)
+}
+
+// OutFull: the outgoing map's fields.
+func (v *VerifSGConn) OutFull(uni bool) VerifSMOut {
+	if uni {
+		return verifSnapOut(v.c.streamsMap.outgoingUniStreams)
+	}
+	return verifSnapOut(v.c.streamsMap.outgoingBidiStreams)
+}
+
+// ClosedWith: error class the connection was closed with by its own code (closeLocal), 0 if open.
+func (v *VerifSGConn) ClosedWith() int {
+	if e := v.c.closeErr.Load(); e != nil {
+		return verifSMErrClass(e.err)
+	}
+	return 0
+}
+
+// ---- whole simulated connection: make one endpoint exceed the peer's stream limit ----
+
+// VerifSGMisleadLimit makes a running connection believe its peer allows n streams of the given
+// type (as if a MAX_STREAMS frame had arrived), so that it will violate the peer's real limit.
+func VerifSGMisleadLimit(c *Conn, uni bool, n int64) {
+	t := protocol.StreamTypeBidi
+	if uni {
+		t = protocol.StreamTypeUni
+	}
+	c.streamsMap.HandleMaxStreamsFrame(&wire.MaxStreamsFrame{Type: t, MaxStreamNum: protocol.StreamNum(n)})
+}
+
+// VerifSGNewTrace returns an in-memory qlog trace (for Config.Tracer).
+func VerifSGNewTrace() qlogwriter.Trace { return &verifSGTrace{} }
+
+// VerifSGCloseClass classifies the error a connection was closed with:
+// (remote, class) with class 1 STREAM_STATE_ERROR, 2 STREAM_LIMIT_ERROR, 7 other, 0 none.
+func VerifSGCloseClass(err error) (remote bool, class int, text string) {
+	if err == nil {
+		return false, 0, ""
+	}
+	var te *qerr.TransportError
+	if errors.As(err, &te) {
+		switch te.ErrorCode {
+		case qerr.StreamStateError:
+			return te.Remote, 1, te.Error()
+		case qerr.StreamLimitError:
+			return te.Remote, 2, te.Error()
+		}
+		return te.Remote, 7, te.Error()
+	}
+	return false, 7, err.Error()
 }
